@@ -16,6 +16,16 @@ package nodenumaresource
 // Plugin.PreBind persisting at bind and a restart fork after every bind - see the
 // section "C19" at the end of this file. C06's behaviour is unchanged for its own id.
 //
+// Binding cycle (both modes): a bind is TWO API writes - the PreBind patch stores the
+// resource-status annotation on the still unassigned pod, then the Bind call sets
+// spec.nodeName - so every watcher sees update(pending -> pending + allocation) followed by
+// update(-> bound, same allocation). A failing binding cycle fails in one of three ways
+// (nothing written / patch stored, Bind refused / both applied, acknowledgement lost: the
+// scheduler un-reserves a pod that is bound and has to learn it back from its informer).
+// Follower (both modes): a second, passive instance of the plugin's caches is fed only the
+// informer event stream and never reserves anything; whenever its streams are drained its
+// ledger must equal what the bound pods' persisted annotations say - see "follower".
+//
 // Node-level CPU bind policy (both modes): in a seeded fraction of the runs nodes carry the label
 // node.koordinator.sh/cpu-bind-policy (FullPCPUsOnly / SpreadByPCPUs / None) or report the kubelet static policy with
 // full-pcpus-only, and pods of any QoS class (LS, BE, none, LSR with a non-prod priority) with whole-number CPU
@@ -136,6 +146,11 @@ type nvOp struct {
 	Hint      []int `json:"hint,omitempty"` // NUMA affinity chosen by the topology manager for this cycle
 	Abandon   bool  `json:"abandon,omitempty"`
 	BindFails bool  `json:"bind_fails,omitempty"`
+	// how the binding cycle fails when BindFails is set: "" - the first API write (the PreBind patch) is refused, nothing
+	// is written; "patched" - the PreBind patch is stored, the Bind call is refused (the pod stays pending and carries the
+	// annotation); "lost-ack" - both writes are applied by the API server but the Bind call returns an error to the
+	// scheduler (timeout / lost acknowledgement): Unreserve runs although the pod is bound
+	BindFault string `json:"bind_fault,omitempty"`
 	// preemption dry run (PostFilter): the cycle evaluates the node with these pods removed; never committed
 	Victims []string `json:"victims,omitempty"`
 	// take (direct call of takePreferredCPUs on the node's current state, as the reservation-restore path does)
@@ -424,8 +439,12 @@ type nvCycle struct {
 	real      *PodAllocation
 	alloc     *nvAlloc
 	bindFails bool
-	stepsIn   int
-	cs        *framework.CycleState // cycle that runs through the real plugin glue: its cycle state (PreFilter .. PreBind)
+	bindFault string
+	// a cycle in which the plugin allocates nothing for the pod (C19; generated only for a pod whose API object still
+	// carries the resource-status annotation of an earlier binding attempt - PreBind patch stored, Bind refused)
+	none    bool
+	stepsIn int
+	cs      *framework.CycleState // cycle that runs through the real plugin glue: its cycle state (PreFilter .. PreBind)
 }
 
 type nvSim struct {
@@ -463,6 +482,12 @@ type nvSim struct {
 	// to differ from what was persisted / rebuilt (reported at the last crash point, after every other oracle)
 	exclOther map[string]bool
 	exclDiff  string
+	// the follower: a second, passive plugin instance (stand-by replica) that is fed nothing but the informer event
+	// stream and never reserves anything itself - see the section "follower" below
+	fw *nvFollower
+	// pods whose bind was applied by the API server while the scheduler was told it failed (pod name -> node): the
+	// window stays open until the pod informer reports the pod (bound, or deleted)
+	lostAck map[string]string
 }
 
 // fail reports a violation of one of C06's oracles. Under C19 these oracles are not claimed (they are C06's and
@@ -564,7 +589,11 @@ func (s *nvSim) mkPod(v *nvPodVer) *nvPodVer {
 	return v
 }
 
-func (s *nvSim) emit(ev nvEvent) { s.streams[ev.typ] = append(s.streams[ev.typ], ev) }
+// emit: one API write is seen by every watcher - the scheduler's informers and, independently, the follower's.
+func (s *nvSim) emit(ev nvEvent) {
+	s.streams[ev.typ] = append(s.streams[ev.typ], ev)
+	s.fw.streams[ev.typ] = append(s.fw.streams[ev.typ], ev)
+}
 
 func (s *nvSim) pendingFor(node string) bool {
 	for _, ev := range s.streams["pod"] {
@@ -578,6 +607,9 @@ func (s *nvSim) pendingFor(node string) bool {
 				return true
 			}
 		}
+	}
+	if s.fw.pendingFor(node) {
+		return true
 	}
 	if s.cycle != nil && s.cycle.node == node {
 		return true
@@ -780,6 +812,8 @@ func (s *nvSim) opNodeAdd(op *nvOp) bool {
 	// (ForceSyncFromInformer in NewWithOptions), then the pods that already run there arrive as Add.
 	opts := t.options()
 	s.tm.UpdateTopologyOptions(op.N, func(o *TopologyOptions) { *o = opts })
+	fopts := t.options() // the follower's own copy: it synced the same NodeResourceTopology
+	s.fw.tm.UpdateTopologyOptions(op.N, func(o *TopologyOptions) { *o = fopts })
 	s.known[op.N] = nd
 	s.schedNodes[op.N] = true
 	if _, had := s.holders[op.N]; had {
@@ -802,6 +836,8 @@ func (s *nvSim) opNodeAdd(op *nvOp) bool {
 			spec: nvSpec{Bind: len(a.cpus) > 0 && nvCPUSetClass(pre.QoS), QoS: pre.QoS, Pol: string(apiext.CPUBindPolicyFullPCPUs), Excl: pre.Excl, Req: req}})
 		s.pods[pre.P] = v
 		s.h.OnAdd(v.obj, true)
+		s.fw.h.OnAdd(v.obj, true)
+		s.fw.tell(op.N, v.uid, a)
 		s.hold(op.N, v.uid, a)
 		s.r.Event("pre %s on %s qos=%s %s", pre.P, op.N, pre.QoS, a)
 		s.r.Probe("pre-existing-pod-add")
@@ -856,9 +892,11 @@ func (s *nvSim) opPodCreate(op *nvOp) bool {
 	if _, dup := s.queue[op.P]; dup {
 		return false
 	}
-	for _, ev := range s.streams["pod"] {
-		if (ev.new != nil && ev.new.name == op.P) || (ev.old != nil && ev.old.name == op.P) {
-			return false // names are not reused while events of an earlier pod are in flight
+	for _, q := range [][]nvEvent{s.streams["pod"], s.fw.streams["pod"]} {
+		for _, ev := range q {
+			if (ev.new != nil && ev.new.name == op.P) || (ev.old != nil && ev.old.name == op.P) {
+				return false // names are not reused while events of an earlier pod are in flight
+			}
 		}
 	}
 	v := s.mkPod(&nvPodVer{name: op.P, uid: "u-" + op.P, rv: s.bump(), spec: nvSpec{Bind: bind, QoS: op.QoS, Pol: op.Pol, Reqd: op.Reqd && bind, Excl: op.Excl, Req: op.Req,
@@ -957,12 +995,18 @@ func (s *nvSim) deliverPod(ev nvEvent) {
 		case v.term:
 			delete(s.queue, v.name)
 			delete(s.resvAvail, v.name)
+			delete(s.lostAck, v.name)
 			if _, held := s.holders[v.node][v.uid]; held {
 				s.r.Probe("terminated-release")
 			}
 			s.unhold(v.node, v.uid)
 		default:
 			delete(s.queue, v.name)
+			if _, open := s.lostAck[v.name]; open {
+				// the informer reports the pod whose bind acknowledgement was lost: the scheduler learns that it is bound
+				delete(s.lostAck, v.name)
+				s.r.Probe("lost-bind-ack:informer-reports-the-pod-bound")
+			}
 			if v.spec.Resv && !v.alloc.empty() {
 				s.resvAvail[v.name] = v // the reservation became Available on its node
 			}
@@ -992,6 +1036,7 @@ func (s *nvSim) deliverPod(ev nvEvent) {
 		}
 		s.r.Event("deliver pod delete %s node=%s", v.name, v.node)
 		delete(s.queue, v.name)
+		delete(s.lostAck, v.name)
 		delete(s.resvAvail, v.name)
 		if v.node != "" {
 			s.unhold(v.node, v.uid)
@@ -1034,6 +1079,28 @@ func (s *nvSim) opSched(op *nvOp) bool {
 			s.checkLedger("pod informer catch-up")
 		}
 	}
+	if s.cycle == nil {
+		// Assumption about the (stubbed) framework: after a Bind call that returned an error although the API server
+		// applied it, the pod sits in back-off; the next cycle for that pod, or for another pod on that node, starts
+		// after the pod informer reported the pod's state. (Between Unreserve and that report no ledger can know that
+		// the pod is bound; what the plugin does with the report is what is checked.)
+		blocked := func() bool {
+			if _, open := s.lostAck[op.P]; open {
+				return true
+			}
+			for _, pn := range nvSortedStrKeys(s.lostAck) {
+				if s.lostAck[pn] == op.N {
+					return true
+				}
+			}
+			return false
+		}
+		for blocked() && len(s.streams["pod"]) > 0 {
+			s.r.Probe("lost-bind-ack:cycle-waits-for-the-informer-report")
+			s.deliver("pod")
+			s.checkLedger("pod informer catch-up after a lost bind acknowledgement")
+		}
+	}
 	pod := s.queue[op.P]
 	nd := s.known[op.N]
 	if pod == nil || nd == nil || !s.schedNodes[op.N] || s.cycle != nil {
@@ -1063,7 +1130,11 @@ func (s *nvSim) opSched(op *nvOp) bool {
 		}
 		s.r.Probe("nodepol:cycle-through-plugin-glue")
 	} else if !pod.spec.Bind && hint == nil {
-		return false // Plugin.allocate returns before Allocate: nothing to do for this pod on this node
+		// Plugin.allocate returns before Allocate: nothing to do for this pod on this node
+		if s.carriesFailedAttempt(op.P) {
+			return s.cycleWithoutAllocation(pod, op, nil)
+		}
+		return false
 	}
 	if pod.spec.Resv && hint != nil {
 		return false // reservations of this workload reserve CPU sets only (no NUMA-level amounts)
@@ -1192,6 +1263,9 @@ func (s *nvSim) opSched(op *nvOp) bool {
 			// neither a CPU set nor NUMA-level amounts are due to this pod on this node: the plugin has nothing to record
 			s.r.Event("allocate %s on %s: nothing to allocate", op.P, op.N)
 			s.r.Probe("nodepol:nothing-to-allocate")
+			if s.carriesFailedAttempt(op.P) {
+				return s.cycleWithoutAllocation(pod, op, cs)
+			}
 			return true
 		}
 		s.fail("allocate", "nil-result", "Allocate(%s on %s) succeeded without an allocation", op.P, op.N)
@@ -1438,7 +1512,30 @@ func (s *nvSim) opSched(op *nvOp) bool {
 	if resv != nil {
 		got.via = resv.uid
 	}
-	s.cycle = &nvCycle{pod: pod, node: op.N, real: pa, alloc: got, bindFails: op.BindFails, cs: cs}
+	s.cycle = &nvCycle{pod: pod, node: op.N, real: pa, alloc: got, bindFails: op.BindFails, bindFault: op.BindFault, cs: cs}
+	delete(s.queue, op.P)
+	s.assumed[op.P] = true
+	return true
+}
+
+// carriesFailedAttempt: the pod's API object is unassigned and still carries the resource-status annotation an earlier
+// binding attempt stored (PreBind patch applied, Bind call refused). C19 only: there the real Plugin.PreBind decides what
+// the object carries when it is bound.
+func (s *nvSim) carriesFailedAttempt(name string) bool {
+	cur := s.pods[name]
+	return s.c19 && cur != nil && cur.node == "" && !cur.alloc.empty()
+}
+
+// cycleWithoutAllocation: the plugin has nothing to allocate for this pod on this node (no CPU set is due, no NUMA
+// hint): Reserve records nothing, the binding cycle still runs PreBind and Bind.
+func (s *nvSim) cycleWithoutAllocation(pod *nvPodVer, op *nvOp, cs *framework.CycleState) bool {
+	s.r.Event("allocate %s on %s: nothing to allocate, the pod carries the annotation of an earlier attempt", op.P, op.N)
+	if op.Abandon {
+		s.r.Probe("cycle-abandoned")
+		return true
+	}
+	s.r.Probe("failed-attempt:cycle-that-allocates-nothing-for-a-pod-carrying-its-annotation")
+	s.cycle = &nvCycle{pod: pod, node: op.N, none: true, bindFails: op.BindFails, bindFault: op.BindFault, cs: cs}
 	delete(s.queue, op.P)
 	s.assumed[op.P] = true
 	return true
@@ -1664,6 +1761,15 @@ func nvSortedKeys(m map[string]int64) []string {
 	return ks
 }
 
+func nvSortedStrKeys[V any](m map[string]V) []string {
+	ks := make([]string, 0, len(m))
+	for k := range m {
+		ks = append(ks, k)
+	}
+	sort.Strings(ks)
+	return ks
+}
+
 func nvSortedInts[V any](m map[int]V) []int {
 	ks := make([]int, 0, len(m))
 	for k := range m {
@@ -1741,6 +1847,17 @@ func (s *nvSim) commit() {
 	if c.stepsIn > 0 {
 		s.r.Probe("events-between-allocate-and-update")
 	}
+	if c.none {
+		// nothing was allocated: the real Reserve (plugin-glue cycles) finds nothing to record
+		if c.cs != nil {
+			if st := s.pl.Reserve(context.TODO(), c.cs, c.pod.obj, c.node); !st.IsSuccess() {
+				s.r.HarnessFail("Reserve of a cycle without an allocation failed: %s", st.Message())
+			}
+		}
+		s.binds = append(s.binds, c)
+		s.r.Event("commit %s on %s: nothing allocated", c.pod.name, c.node)
+		return
+	}
 	if c.cs != nil {
 		// the second half of the real Plugin.Reserve (the allocation is in the cycle state): resourceManager.Update
 		if st := s.pl.Reserve(context.TODO(), c.cs, c.pod.obj, c.node); !st.IsSuccess() {
@@ -1764,58 +1881,102 @@ func (s *nvSim) commit() {
 	s.r.Event("commit %s on %s %s", c.pod.name, c.node, c.alloc)
 }
 
-// bindResult resolves one binding cycle: the bind API call succeeds (the pod
-// object gets its node and the resource-status annotation) or Unreserve runs.
+// bindResult resolves one binding cycle. The binding cycle makes TWO API writes: PreBind patches the allocation into the
+// pod's annotations while the pod is still unassigned (frameworkext RunPreBindPlugins -> defaultprebind ApplyPatch), then
+// the Bind call sets spec.nodeName. Every watcher therefore sees update(pending -> pending + resource-status) followed by
+// update(... -> bound, same resource-status). Outcomes: both writes succeed; the first write is refused (nothing is
+// written); the patch is stored and the Bind call is refused (the pod stays pending, carrying the annotation); both
+// writes are applied but the Bind call reports an error to the scheduler (lost acknowledgement). In every failing
+// outcome the framework runs Unreserve and the pod goes back to the queue.
 func (s *nvSim) bindResult(i int) {
 	c := s.binds[i]
 	s.binds = append(s.binds[:i:i], s.binds[i+1:]...)
 	cur := s.pods[c.pod.name]
-	var persisted map[string]string
-	preBindFailed := false
-	if s.c19 && !(c.bindFails || cur == nil || cur.node != "" || s.nodes[c.node] == nil) {
-		// C19: the binding cycle runs the real Plugin.PreBind on a copy of the pod; what it writes is what the API server stores
-		persisted, preBindFailed = s.preBind(c, cur)
+	possible := cur != nil && cur.node == "" && s.nodes[c.node] != nil
+	fault := ""
+	if c.bindFails {
+		fault = "refused"
+		if c.bindFault == "patched" || c.bindFault == "lost-ack" {
+			fault = c.bindFault
+		}
 	}
-	if c.bindFails || cur == nil || cur.node != "" || s.nodes[c.node] == nil || preBindFailed {
-		// Plugin.Unreserve
-		if c.cs != nil {
-			s.pl.Unreserve(context.TODO(), c.cs, c.pod.obj, c.node)
-		} else {
-			s.rm.Release(c.node, types.UID(c.pod.uid))
+	var persisted map[string]string
+	preBindFailed, patched, bound := false, false, false
+	if possible && fault != "refused" {
+		if s.c19 {
+			// C19: the binding cycle runs the real Plugin.PreBind on a copy of the pod; what it writes is what the API server stores
+			persisted, preBindFailed = s.preBind(c, cur)
 		}
-		s.unhold(c.node, c.pod.uid)
-		delete(s.assumed, c.pod.name)
-		switch {
-		case cur == nil:
-			s.r.Probe("bind-after-pod-delete")
-		case s.nodes[c.node] == nil:
-			s.r.Probe("bind-after-node-delete")
-		case preBindFailed:
-			s.r.Probe("c19:prebind-failed-unreserve")
-			s.queue[c.pod.name] = cur
-		default:
-			s.r.Probe("bind-failed-unreserve")
-			s.queue[c.pod.name] = cur // back to the scheduling queue
+		if !preBindFailed {
+			// write 1: the annotation patch; the pod is still unassigned
+			nv := *cur
+			nv.alloc, nv.rv = c.alloc, s.bump()
+			if s.exclOther[c.pod.uid] && c.alloc != nil {
+				// what the API object says: the allocation, with the exclusive policy its resource spec names
+				a := *c.alloc
+				a.excl = c.pod.spec.Excl
+				nv.alloc = &a
+			}
+			nv.ann = persisted
+			s.pods[c.pod.name] = s.mkPod(&nv)
+			s.emit(nvEvent{typ: "pod", kind: "update", old: cur, new: s.pods[c.pod.name]})
+			s.r.Event("prebind-patch %s for %s %s", c.pod.name, c.node, nv.alloc)
+			if !cur.alloc.empty() {
+				s.r.Probe("prebind-patch-overwrites-the-annotation-of-an-earlier-attempt")
+			}
+			patched = true
 		}
-		s.r.Event("unreserve %s on %s", c.pod.name, c.node)
+	}
+	if patched && fault != "patched" {
+		// write 2: the Bind call
+		prev := s.pods[c.pod.name]
+		nv := *prev
+		nv.node, nv.rv = c.node, s.bump()
+		s.pods[c.pod.name] = s.mkPod(&nv)
+		s.emit(nvEvent{typ: "pod", kind: "update", old: prev, new: s.pods[c.pod.name]})
+		s.r.Event("bound %s on %s", c.pod.name, c.node)
+		bound = true
+		if s.c19 {
+			// crash point: the scheduler dies right after this bind; a fresh one starts from the API objects
+			s.fork("bind of "+c.pod.name, false)
+		}
+	}
+	if bound && fault == "" {
 		return
 	}
-	nv := *cur
-	nv.node, nv.alloc, nv.rv = c.node, c.alloc, s.bump()
-	if s.exclOther[c.pod.uid] {
-		// what the API object says: the allocation, with the exclusive policy its resource spec names
-		a := *c.alloc
-		a.excl = c.pod.spec.Excl
-		nv.alloc = &a
+	// Plugin.Unreserve
+	if c.cs != nil {
+		s.pl.Unreserve(context.TODO(), c.cs, c.pod.obj, c.node)
+	} else if !c.none {
+		s.rm.Release(c.node, types.UID(c.pod.uid))
 	}
-	nv.ann = persisted
-	s.pods[c.pod.name] = s.mkPod(&nv)
-	s.emit(nvEvent{typ: "pod", kind: "update", old: cur, new: s.pods[c.pod.name]})
-	s.r.Event("bound %s on %s", c.pod.name, c.node)
-	if s.c19 {
-		// crash point: the scheduler dies right after this bind; a fresh one starts from the API objects
-		s.fork("bind of "+c.pod.name, false)
+	s.unhold(c.node, c.pod.uid)
+	delete(s.assumed, c.pod.name)
+	switch {
+	case cur == nil:
+		s.r.Probe("bind-after-pod-delete")
+	case cur.node != "":
+		s.r.Probe("bind-of-a-pod-that-is-already-bound")
+	case s.nodes[c.node] == nil:
+		s.r.Probe("bind-after-node-delete")
+		s.queue[c.pod.name] = cur
+	case preBindFailed:
+		s.r.Probe("c19:prebind-failed-unreserve")
+		s.queue[c.pod.name] = cur
+	case bound:
+		// lost acknowledgement: the pod IS bound; the scheduler does not know and puts it back into its queue (its informer
+		// cache still holds the pending version) until the pod informer reports the pod
+		s.r.Probe("lost-bind-ack:unreserve-of-a-bound-pod")
+		s.queue[c.pod.name] = cur
+		s.lostAck[c.pod.name] = c.node
+	case patched:
+		s.r.Probe("bind-refused-after-the-prebind-patch(annotation stays on the pending pod)")
+		s.queue[c.pod.name] = cur // back to the scheduling queue (the informer will report the patched version)
+	default:
+		s.r.Probe("bind-failed-unreserve")
+		s.queue[c.pod.name] = cur // back to the scheduling queue
 	}
+	s.r.Event("unreserve %s on %s (%s)", c.pod.name, c.node, fault)
 }
 
 // ---------------------------------------------------------------- ledger oracles
@@ -2074,6 +2235,213 @@ func (s *nvSim) checkEmpty() {
 	s.r.Probe("final-empty-check")
 }
 
+// ---------------------------------------------------------------- follower
+//
+// The follower is a second instance of the plugin's caches (topology manager, resourceManager, pod event handler) in
+// the same run: a stand-by replica of the scheduler. It never runs a cycle (no Allocate, no Reserve / Update of its
+// own, no Unreserve); everything it knows it learned from its own informers, which see every API write of the run as an
+// event: pod adds, the PreBind-patch update (annotation, still unassigned), the Bind update (node name, same annotation),
+// terminations, resyncs, deletes (incl. tombstones), NodeResourceTopology / node deletes - per informer in write order,
+// the informers interleaved by the deliver tape independently of the scheduler's own informers, with its own coalesced
+// updates and repeated (resync / same-allocation) updates. Oracle, from the statement only: whenever the follower has
+// been told everything (its streams are drained), its ledger is exactly what the bound, live pods of the API store hold
+// according to their persisted annotations - the instance that learned the allocations from the informer must not know
+// less (or more) than the instance that made them - and nothing such a pod holds is offered by it.
+
+type nvFollower struct {
+	tm      TopologyOptionsManager
+	rm      *resourceManager
+	h       *podEventHandler
+	streams map[string][]nvEvent
+	checks  int
+	// history of the follower, kept only to know the history class of the recorded finding nvTagStacked on ITS ledger:
+	// the bound live pods it has been told about (node -> uid -> persisted allocation) and the CPUs on which it was told
+	// to stack pods with different persisted exclusive policies
+	told  map[string]map[string]*nvAlloc
+	mixed map[string]map[int]bool
+}
+
+// tell records that the follower was told that the pod holds the persisted allocation a on the node (a == nil: no longer).
+func (f *nvFollower) tell(node, uid string, a *nvAlloc) {
+	if a == nil {
+		delete(f.told[node], uid)
+		return
+	}
+	if f.told[node] == nil {
+		f.told[node] = map[string]*nvAlloc{}
+	}
+	for ouid, o := range f.told[node] {
+		if ouid == uid || nvExclNorm(o.excl) == nvExclNorm(a.excl) {
+			continue
+		}
+		for _, c := range a.cpus {
+			for _, oc := range o.cpus {
+				if c == oc {
+					if f.mixed[node] == nil {
+						f.mixed[node] = map[int]bool{}
+					}
+					f.mixed[node][c] = true
+				}
+			}
+		}
+	}
+	f.told[node][uid] = a
+}
+
+func (f *nvFollower) pendingFor(node string) bool {
+	for _, ev := range f.streams["pod"] {
+		if (ev.new != nil && ev.new.node == node) || (ev.old != nil && ev.old.node == node) {
+			return true
+		}
+	}
+	for _, typ := range []string{"nrt", "node"} {
+		for _, ev := range f.streams[typ] {
+			if ev.node == node {
+				return true
+			}
+		}
+	}
+	return false
+}
+
+func (f *nvFollower) drained() bool {
+	return len(f.streams["pod"]) == 0 && len(f.streams["nrt"]) == 0 && len(f.streams["node"]) == 0
+}
+
+// deliverFollower hands the next event of one of the follower's informers to the follower's handlers.
+func (s *nvSim) deliverFollower(typ string) {
+	f := s.fw
+	q := f.streams[typ]
+	ev := q[0]
+	q = q[1:]
+	if typ == "pod" && ev.kind == "update" && len(q) > 0 && q[0].kind == "update" && q[0].new.name == ev.new.name && s.r.Flip(0.15) {
+		// coalescing: consecutive updates of one object merged by the informer
+		ev = nvEvent{typ: "pod", kind: "update", old: ev.old, new: q[0].new}
+		q = q[1:]
+		s.r.Probe("follower:coalesced-update")
+	}
+	f.streams[typ] = q
+	switch typ {
+	case "nrt":
+		f.tm.Delete(ev.node)
+		s.r.Event("follower nrt delete %s", ev.node)
+	case "node":
+		if s.r.Flip(0.2) {
+			f.rm.onNodeDelete(cache.DeletedFinalStateUnknown{Key: ev.node, Obj: ev.nodeObj})
+		} else {
+			f.rm.onNodeDelete(ev.nodeObj)
+		}
+		delete(f.told, ev.node)
+		delete(f.mixed, ev.node)
+		s.r.Event("follower node delete %s", ev.node)
+	case "pod":
+		switch ev.kind {
+		case "add", "update":
+			v := ev.new
+			if ev.kind == "add" {
+				f.h.OnAdd(v.obj, false)
+			} else {
+				f.h.OnUpdate(ev.old.obj, v.obj)
+				switch {
+				case ev.old.node == "" && v.node != "" && !ev.old.alloc.empty():
+					// the Bind update: the previous version already carried the allocation (PreBind patch), this is the first with a node
+					s.r.Probe("follower:bind-update-after-prebind-patch")
+				case ev.old.node == "" && v.node != "":
+					s.r.Probe("follower:bind-update-coalesced-with-prebind-patch")
+				case ev.old.node == "" && v.node == "" && !v.alloc.empty():
+					s.r.Probe("follower:prebind-patch-update")
+				}
+			}
+			s.r.Event("follower pod %s %s node=%s term=%v %s", ev.kind, v.name, v.node, v.term, v.alloc)
+			switch {
+			case v.node == "":
+			case v.term:
+				f.tell(v.node, v.uid, nil)
+			case !v.alloc.empty():
+				f.tell(v.node, v.uid, v.alloc)
+			}
+			// what an informer may repeat at any time: a resync of the version it holds, an update that touches something else
+			if s.r.Flip(0.06) {
+				f.h.OnUpdate(v.obj, v.obj)
+				s.r.Probe("follower:resync")
+			}
+			if s.r.Flip(0.04) {
+				f.h.OnUpdate(v.obj, s.nvTouched(v, false))
+				s.r.Probe("follower:same-allocation-update")
+			}
+		case "delete":
+			v := ev.old
+			if s.r.Flip(0.2) {
+				f.h.OnDelete(cache.DeletedFinalStateUnknown{Key: "default/" + v.name, Obj: v.obj})
+			} else {
+				f.h.OnDelete(v.obj)
+			}
+			s.r.Event("follower pod delete %s node=%s", v.name, v.node)
+			if v.node != "" {
+				f.tell(v.node, v.uid, nil)
+			}
+		}
+	}
+}
+
+// checkFollower: the follower has been told everything that happened (its streams are drained): its ledger must be
+// exactly what the bound, live pods of the API store hold; under C19 also the free CPU set / probe allocations of (c).
+func (s *nvSim) checkFollower(after string, probe bool) {
+	f := s.fw
+	if !f.drained() {
+		s.r.HarnessFail("follower checked while events are in flight")
+	}
+	f.checks++
+	s.r.Probe("follower:ledger-compared-with-the-store")
+	oracle := "follower-ledger"
+	if s.c19 {
+		oracle = "follower-vs-persisted"
+	}
+	f.rm.lock.Lock()
+	real := map[string]*NodeAllocation{}
+	for k, v := range f.rm.nodeAllocations {
+		real[k] = v
+	}
+	f.rm.lock.Unlock()
+	names := map[string]bool{}
+	for n := range real {
+		names[n] = true
+	}
+	for n := range s.nodes {
+		names[n] = true
+	}
+	var state []string
+	for _, node := range nvSortedStrKeys(names) {
+		expected := map[string]nvHolder{}
+		relaxed := map[string]bool{}
+		t := &nvTopo{}
+		if nd := s.nodes[node]; nd != nil {
+			t = nd.topo
+			for _, pn := range nvSortedPodNames(s.pods) {
+				v := s.pods[pn]
+				if v.node != node || v.term || v.alloc.empty() {
+					continue
+				}
+				expected[v.uid] = nvHolder{name: v.name, alloc: v.alloc}
+				if !s.c19 {
+					relaxed[v.uid] = true // the exclusive policy recorded with an allocation is not C06's subject
+				}
+			}
+		}
+		what := fmt.Sprintf("after %s (check %d of the follower), ledger of the instance that only follows the informer events vs bound pods of the API store", after, f.checks)
+		stacked := f.mixed[node]
+		if stacked == nil {
+			stacked = map[int]bool{}
+		}
+		s.compareLedger(oracle, "event-stream", what, node, real[node], nvDerive(t, expected), t, relaxed, stacked)
+		if probe && s.nodes[node] != nil {
+			s.probeAfterRestart("follower-event-stream", after+" (follower instance)", node, f.rm, f.tm, nvDerive(t, expected))
+		}
+		state = append(state, node+"["+nvLedgerString(real[node])+"]")
+	}
+	s.r.Event("follower drained %s", strings.Join(state, " "))
+}
+
 // ---------------------------------------------------------------- execution
 
 func (nvEngine) Execute(r *sim.Run) {
@@ -2089,6 +2457,11 @@ func (nvEngine) Execute(r *sim.Run) {
 		nodeAllocations:        map[string]*NodeAllocation{},
 	}
 	s.h = &podEventHandler{resourceManager: s.rm}
+	s.lostAck = map[string]string{}
+	ftm := NewTopologyOptionsManager()
+	frm := &resourceManager{numaAllocateStrategy: s.rm.numaAllocateStrategy, topologyOptionsManager: ftm, nodeAllocations: map[string]*NodeAllocation{}}
+	s.fw = &nvFollower{tm: ftm, rm: frm, h: &podEventHandler{resourceManager: frm}, streams: map[string][]nvEvent{},
+		told: map[string]map[string]*nvAlloc{}, mixed: map[string]map[int]bool{}}
 	// the real plugin: PreBind under C19; the whole glue for the cycles on nodes with a node-level CPU bind policy.
 	// The scheduler's default bind policy is a configuration input of the harness.
 	s.pl = &Plugin{handle: &nvHandle{snapshot: &nvSnapshot{s: s}}, resourceManager: s.rm, topologyOptionsManager: s.tm,
@@ -2116,6 +2489,11 @@ func (nvEngine) Execute(r *sim.Run) {
 				cs = append(cs, choice{typ, 0})
 			}
 		}
+		for _, typ := range []string{"nrt", "pod", "node"} {
+			if len(s.fw.streams[typ]) > 0 {
+				cs = append(cs, choice{"follower-" + typ, 0})
+			}
+		}
 		for i := range s.binds {
 			cs = append(cs, choice{"bind", i})
 		}
@@ -2134,6 +2512,12 @@ func (nvEngine) Execute(r *sim.Run) {
 		case "nrt", "pod", "node":
 			after = "delivery on the " + c.kind + " stream"
 			s.deliver(c.kind)
+		case "follower-nrt", "follower-pod", "follower-node":
+			after = "delivery on the follower's " + strings.TrimPrefix(c.kind, "follower-") + " stream"
+			s.deliverFollower(strings.TrimPrefix(c.kind, "follower-"))
+			if s.fw.drained() {
+				s.checkFollower(after, false)
+			}
 		case "bind":
 			s.bindResult(c.i)
 		case "op":
@@ -2173,9 +2557,12 @@ func (nvEngine) Execute(r *sim.Run) {
 			s.checkQuiescent()
 		}
 	}
-	if !s.quiescent() {
+	if !s.quiescent() || !s.fw.drained() {
 		r.HarnessFail("loop ended while work is in flight")
 	}
+	// the follower at the end of the history (under C19 with the free-set / probe-allocation oracle); checked before the
+	// last crash point because that one reports the deferred differences of the recorded findings
+	s.checkFollower("end of history", s.c19)
 	if s.c19 {
 		// one more crash point: the end of the history (every event delivered, nothing in flight)
 		s.fork("end of history", true)
@@ -2190,6 +2577,10 @@ func (nvEngine) Execute(r *sim.Run) {
 	}
 	s.checkQuiescent()
 	s.checkEmpty()
+	for len(s.fw.streams["pod"]) > 0 {
+		s.deliverFollower("pod")
+	}
+	s.checkFollower("final delete", false)
 }
 
 // ---------------------------------------------------------------- generation
@@ -2501,7 +2892,12 @@ func (nvEngine) Generate(p *sim.Plan, g *sim.Rng) {
 	}
 	numaHeavy := g.Bool(0.5) // this run leans towards NUMA-level requests
 	schedOp := func(pod, node string, hint []int) nvOp {
-		return nvOp{K: "sched", P: pod, N: node, Hint: hint, Abandon: g.Bool(0.1), BindFails: g.Bool(0.15)}
+		op := nvOp{K: "sched", P: pod, N: node, Hint: hint, Abandon: g.Bool(0.1), BindFails: g.Bool(0.15)}
+		if op.BindFails {
+			// how the binding cycle fails: first write refused / patch stored, Bind refused / both applied, acknowledgement lost
+			op.BindFault = g.Pick("", "", "patched", "patched", "lost-ack", "lost-ack", "lost-ack")
+		}
+		return op
 	}
 	// reservations: name -> node they were sent to, and the CPUs they ask for
 	type genResv struct {
@@ -2673,7 +3069,8 @@ func (nvEngine) Generate(p *sim.Plan, g *sim.Rng) {
 
 // ================================================================ C19: allocation state survives a restart
 //
-// Under property C19 the same histories run with the REAL Plugin.PreBind persisting the allocation at bind, and
+// Under property C19 the same histories run with the REAL Plugin.PreBind persisting the allocation at bind (the PreBind
+// patch and the Bind call are two API writes, see bindResult), and
 // after EVERY successful bind (and once more at the end of the history) the run forks: fresh plugin caches
 // (topologyManager, resourceManager, pod event handler, NodeResourceTopology event handler) are built and fed ONLY
 // the objects that exist in the API store, as the start-up delivery of a restarted scheduler: every object as an
@@ -2681,6 +3078,11 @@ func (nvEngine) Generate(p *sim.Plan, g *sim.Rng) {
 //   (a) codec: Get(Set(x)) == x for every allocation the allocator produced; what PreBind stored reads back to the allocation;
 //   (b) the rebuilt NodeAllocation equals the sum over the bound pods of the store (model) and the live ledger restricted to them;
 //   (c) nothing taken before the restart is offered after it (free CPU set, a probe allocation of everything that is left).
+// The forks replay the FINAL objects as Adds. The instance that learns the allocations from the event stream instead
+// (add of the pending pod, PreBind-patch update, Bind update) is the follower, compared with the store whenever it is
+// drained (oracle follower-vs-persisted) and, at the end of the history, with oracle (c) as well. At the last crash
+// point every bound pod of the store must also be known to the live ledger (rebuilt-vs-live/bound-pod-not-in-live-ledger):
+// a pod un-reserved after a lost bind acknowledgement has to be learned back from the informer's bound update.
 // Start-up order: cmd/koord-scheduler/app/server.go starts the pod/node informer factory, then the koordinator and
 // the NodeResourceTopology factories, all asynchronously; frameworkexthelper.ForceSyncFromInformer only registers the
 // handler. So "topology before pods" is a convention, not a guarantee: both classes are generated (cfg.order) and
@@ -2696,6 +3098,11 @@ const (
 	// it from the annotation for every pod: the restarted scheduler (and the live one, from the pod's next update
 	// event on) records the pod's CPUs as exclusive.
 	nvTagExclOther = "exclusive-policy-in-the-resource-spec-of-a-pod-that-is-not-lse-lsr"
+	// history class of the finding recorded for C19: a binding attempt stored its PreBind patch (resource-status) on the
+	// pod and the Bind call was refused; a later cycle in which the plugin allocates nothing for the pod (another node:
+	// no CPU set due there, no NUMA hint) binds it. PreBind returns early without an allocation and leaves the
+	// annotation of the failed attempt on the object.
+	nvTagFailedAttempt = "bound-by-a-cycle-that-allocates-nothing-while-carrying-the-resource-status-of-a-failed-attempt"
 )
 
 // ---- framework stubs for the real Plugin.PreBind
@@ -2767,9 +3174,30 @@ func (s *nvSim) preBind(c *nvCycle, cur *nvPodVer) (map[string]string, bool) {
 		s.r.Probe("c19:prebind-on-the-cycle-state-of-the-plugin-glue")
 	}
 	obj := cur.obj.DeepCopy()
+	if c.none {
+		// history class of the finding recorded for C19 (nvTagFailedAttempt): the pod is about to be bound by a cycle that
+		// allocates nothing while its API object carries the resource-status of an earlier, failed binding attempt
+		s.r.Tag(nvTagFailedAttempt)
+	}
 	if status := s.pl.PreBind(context.TODO(), cs, obj, c.node); !status.IsSuccess() {
 		s.r.Event("prebind %s on %s failed: %s", c.pod.name, c.node, status.Message())
 		return nil, true
+	}
+	if c.none {
+		// (a) what the object carries when it is bound reads back to the allocation of the cycle that binds it: nothing
+		s.r.OracleEval()
+		s.r.Probe("failed-attempt:prebind-of-a-cycle-that-allocates-nothing")
+		back, err := apiext.GetResourceStatus(obj.Annotations)
+		if err != nil || back.CPUSet != "" || len(back.NUMANodeResources) > 0 {
+			s.r.Fail("persisted-vs-allocation", "resource-status-of-a-failed-attempt-bound-by-a-cycle-that-allocates-nothing",
+				"pod %s is bound to %s by a cycle in which the plugin allocated nothing (Reserve recorded nothing), but after PreBind its object still carries the resource-status of an earlier binding attempt (PreBind patch stored, Bind refused): %q (err %v) - every reader of the annotation (the pod event handler of this and of a restarted scheduler, the koordlet) takes %s on %s for allocated to it",
+				c.pod.name, c.node, obj.Annotations[apiext.AnnotationResourceStatus], err, cur.alloc, c.node)
+		}
+		out := map[string]string{}
+		for k, v := range obj.Annotations {
+			out[k] = v
+		}
+		return out, false
 	}
 	s.r.Probe("c19:prebind-persisted")
 	// (a) what was persisted reads back to exactly the allocation Reserve recorded in the live ledger
@@ -3116,7 +3544,12 @@ func nvSortedHolders(m map[string]nvHolder) []string {
 // compareLedger: the NodeAllocation `na` (nil = no entry = empty) must be exactly the ledger the holders imply.
 // exclRelaxed: pods (uid) whose exclusive policy is not compared (the live record of a pod of the history class
 // nvTagExclOther carries no exclusive policy until the pod's next update event; nil for the comparison with the store).
-func (s *nvSim) compareLedger(oracle, class, what, node string, na *NodeAllocation, want *nvLedger, t *nvTopo, exclRelaxed map[string]bool) {
+//
+// released != nil: the ledger under comparison has also seen releases (the follower). A CPU keeps the exclusive policy of
+// the pod added last and a release never rewrites it: "" and "None" are one policy there, and on the CPUs of `released`
+// (pods with different exclusive policies were stacked on them: the history class of the recorded finding nvTagStacked)
+// the per-CPU policy is not compared. A rebuilt ledger (adds only) is compared exactly.
+func (s *nvSim) compareLedger(oracle, class, what, node string, na *NodeAllocation, want *nvLedger, t *nvTopo, exclRelaxed map[string]bool, released map[int]bool) {
 	r := s.r
 	r.OracleEval()
 	var pods map[types.UID]PodAllocation
@@ -3133,25 +3566,25 @@ func (s *nvSim) compareLedger(oracle, class, what, node string, na *NodeAllocati
 		h := want.pods[uid]
 		pa, ok := pods[types.UID(uid)]
 		if !ok {
-			fail("pod-lost", "pod %s (%s) holds %s but the rebuilt ledger does not know it", h.name, uid, h.alloc)
+			fail("pod-lost", "pod %s (%s) holds %s but this ledger does not know it", h.name, uid, h.alloc)
 		}
 		g := nvFromReal(&pa)
 		if !nvIntsEq(g.cpus, h.alloc.cpus) {
-			fail("pod-cpuset", "pod %s holds CPUs %v, rebuilt as %v", h.name, h.alloc.cpus, g.cpus)
+			fail("pod-cpuset", "pod %s holds CPUs %v, recorded as %v", h.name, h.alloc.cpus, g.cpus)
 		}
 		if d := nvNumaDiff(h.alloc.numa, g.numa); d != "" {
-			fail("pod-numa-amount", "pod %s holds %s, rebuilt as %s (%s)", h.name, h.alloc, g, d)
+			fail("pod-numa-amount", "pod %s holds %s, recorded as %s (%s)", h.name, h.alloc, g, d)
 		}
 		if g.excl != h.alloc.excl && exclRelaxed[uid] {
 			r.Probe("c19:exclusive-policy-of-a-pod-that-is-not-lse-lsr-differs(live vs rebuilt)")
 			if s.exclDiff == "" {
-				s.exclDiff = fmt.Sprintf("%s: node %s: pod %s is recorded with exclusive policy %q, rebuilt with %q", what, node, h.name, h.alloc.excl, g.excl)
+				s.exclDiff = fmt.Sprintf("%s: node %s: pod %s is recorded with exclusive policy %q, recorded with %q", what, node, h.name, h.alloc.excl, g.excl)
 			}
 		} else if g.excl != h.alloc.excl {
-			fail("pod-exclusive-policy", "pod %s was allocated with exclusive policy %q, rebuilt with %q", h.name, h.alloc.excl, g.excl)
+			fail("pod-exclusive-policy", "pod %s was allocated with exclusive policy %q, recorded with %q", h.name, h.alloc.excl, g.excl)
 		}
 		if pa.Name != h.name || pa.Namespace != "default" {
-			fail("pod-identity", "pod %s rebuilt as %s/%s", h.name, pa.Namespace, pa.Name)
+			fail("pod-identity", "pod %s recorded as %s/%s", h.name, pa.Namespace, pa.Name)
 		}
 	}
 	var ghosts []string
@@ -3163,22 +3596,22 @@ func (s *nvSim) compareLedger(oracle, class, what, node string, na *NodeAllocati
 	sort.Strings(ghosts)
 	if len(ghosts) > 0 {
 		pa := pods[types.UID(ghosts[0])]
-		fail("pod-ghost", "the rebuilt ledger holds %s (%s) which is not a bound live pod with an allocation", ghosts[0], nvFromReal(&pa))
+		fail("pod-ghost", "this ledger holds %s (%s) which is not a bound live pod with an allocation", ghosts[0], nvFromReal(&pa))
 	}
 	// CPUs with reference counts
 	for _, c := range nvSortedInts(want.cnt) {
 		if cpus[c].RefCount != want.cnt[c] {
-			fail("cpu-refcount", "CPU %d is held by %d pods, rebuilt reference count %d", c, want.cnt[c], cpus[c].RefCount)
+			fail("cpu-refcount", "CPU %d is held by %d pods, recorded reference count %d", c, want.cnt[c], cpus[c].RefCount)
 		}
 	}
 	for _, c := range nvSortedInts(cpus) {
 		info := cpus[c]
 		if info.RefCount != want.cnt[c] {
-			fail("cpu-refcount", "CPU %d is held by %d pods, rebuilt reference count %d", c, want.cnt[c], info.RefCount)
+			fail("cpu-refcount", "CPU %d is held by %d pods, recorded reference count %d", c, want.cnt[c], info.RefCount)
 		}
 		p, ok := t.pos(c)
 		if !ok || info.CPUID != c || info.NodeID != p.node || info.SocketID != p.socket {
-			fail("cpu-info", "CPU %d rebuilt as %+v, the topology puts it on socket %d NUMA node %d", c, info, p.socket, p.node)
+			fail("cpu-info", "CPU %d recorded as %+v, the topology puts it on socket %d NUMA node %d", c, info, p.socket, p.node)
 		}
 		okPol := false
 		for huid, h := range want.pods {
@@ -3186,10 +3619,17 @@ func (s *nvSim) compareLedger(oracle, class, what, node string, na *NodeAllocati
 				if hc == c && (h.alloc.excl == string(info.ExclusivePolicy) || exclRelaxed[huid]) {
 					okPol = true
 				}
+				if hc == c && released != nil && nvExclNorm(h.alloc.excl) == nvExclNorm(string(info.ExclusivePolicy)) {
+					okPol = true
+				}
 			}
 		}
+		if released[c] {
+			r.Probe("follower:exclusive-policy-of-stacked-cpu-not-compared")
+			okPol = true
+		}
 		if !okPol {
-			fail("cpu-exclusive-policy", "CPU %d rebuilt with exclusive policy %q which none of its holders has", c, info.ExclusivePolicy)
+			fail("cpu-exclusive-policy", "CPU %d recorded with exclusive policy %q which none of its holders has", c, info.ExclusivePolicy)
 		}
 	}
 	// per-NUMA amounts
@@ -3205,7 +3645,7 @@ func (s *nvSim) compareLedger(oracle, class, what, node string, na *NodeAllocati
 		}
 	}
 	if d := nvNumaDiff(want.used, have); d != "" {
-		fail("numa-amount", "sum over the pods vs rebuilt ledger: %s", d)
+		fail("numa-amount", "sum over the pods vs this ledger: %s", d)
 	}
 	// NUMA node status sets
 	for _, pair := range []struct {
@@ -3235,10 +3675,15 @@ func (s *nvSim) compareLedger(oracle, class, what, node string, na *NodeAllocati
 		}
 		for _, n := range nvSortedInts(ns) {
 			if w, g := strings.Join(nvSortedSet(pair.want[n]), ","), strings.Join(got[n], ","); w != g {
-				fail("numa-status", "NUMA node %d %s-set: pods {%s} by their CPU sets, rebuilt {%s}", n, pair.name, w, g)
+				fail("numa-status", "NUMA node %d %s-set: pods {%s} by their CPU sets, recorded {%s}", n, pair.name, w, g)
 			}
 		}
 	}
+}
+
+func nvHasPod(na *NodeAllocation, uid string) bool {
+	_, ok := na.allocatedPods[types.UID(uid)]
+	return ok
 }
 
 func nvLedgerString(na *NodeAllocation) string {
@@ -3304,7 +3749,8 @@ func (s *nvSim) nvTouched(v *nvPodVer, zeroPad bool) *corev1.Pod {
 	p := v.obj.DeepCopy()
 	p.ResourceVersion = p.ResourceVersion + "1"
 	p.Labels["touched"] = "1"
-	if zeroPad {
+	if zeroPad && !v.alloc.empty() {
+		// (a pod that carries no allocation has nothing to spell differently: padding it would CREATE an annotation)
 		st, err := apiext.GetResourceStatus(p.Annotations)
 		if err != nil {
 			return p
@@ -3512,7 +3958,7 @@ func (s *nvSim) fork(trigger string, final bool) {
 		s.nvCheckOptions(n, t, tm2.GetTopologyOptions(n))
 		want := nvDerive(t, expected[n])
 		// (b1) rebuilt == what the API objects say (independent of the live ledger)
-		s.compareLedger("rebuilt-vs-persisted", class, fmt.Sprintf("fork %d after %s, rebuilt ledger vs bound pods of the API store", s.forks, trigger), n, rebuilt[n], want, t, nil)
+		s.compareLedger("rebuilt-vs-persisted", class, fmt.Sprintf("fork %d after %s, rebuilt ledger vs bound pods of the API store", s.forks, trigger), n, rebuilt[n], want, t, nil, nil)
 
 		// (b2) rebuilt == the live ledger restricted to the bound pods
 		if s.liveBad {
@@ -3537,10 +3983,10 @@ func (s *nvSim) fork(trigger string, final bool) {
 				r.Probe("c19:live-holds-allocations-that-vanish-at-restart")
 			}
 			if missing > 0 {
-				// cannot happen in the generated histories (a bound pod is in the live ledger since Reserve / its add)
+				// only after a lost bind acknowledgement (Unreserve released a pod that is bound) until the pod informer reports the pod
 				r.Probe("c19:bound-pod-not-in-live-ledger")
 			} else {
-				s.compareLedger("rebuilt-vs-live", class, fmt.Sprintf("fork %d after %s, rebuilt ledger vs live ledger restricted to bound pods", s.forks, trigger), n, rebuilt[n], nvDerive(t, restricted), t, s.exclOther)
+				s.compareLedger("rebuilt-vs-live", class, fmt.Sprintf("fork %d after %s, rebuilt ledger vs live ledger restricted to bound pods", s.forks, trigger), n, rebuilt[n], nvDerive(t, restricted), t, s.exclOther, nil)
 				if extra == 0 && lv != nil && rebuilt[n] != nil {
 					// the live ledger holds exactly the bound pods: the raw per-CPU records must be identical too
 					r.OracleEval()
@@ -3583,6 +4029,20 @@ func (s *nvSim) fork(trigger string, final bool) {
 							r.Fail("rebuilt-vs-live", "cpu-record/"+class, "fork %d after %s: node %s CPU %d: live record %+v, rebuilt record %+v", s.forks, trigger, n, c, a, b)
 						}
 					}
+				}
+			}
+		}
+
+		if final {
+			// At the end of the history the scheduler that made the allocations has been told everything (every event is
+			// delivered, no cycle in flight): the state it holds must know every bound pod of the store - also the ones it
+			// un-reserved after a lost bind acknowledgement and learned back from its informer - or the rebuilt state cannot be
+			// identical to it. (Judged whether or not one of C06's oracles failed earlier in the run.)
+			r.OracleEval()
+			for _, uid := range nvSortedHolders(expected[n]) {
+				if lv := live[n]; lv == nil || !nvHasPod(lv, uid) {
+					r.Fail("rebuilt-vs-live", "bound-pod-not-in-live-ledger/"+class, "fork %d after %s: node %s: pod %s (%s) is bound and holds %s; the rebuilt ledger knows it, the ledger of the scheduler that made the allocation does not",
+						s.forks, trigger, n, expected[n][uid].name, uid, expected[n][uid].alloc)
 				}
 			}
 		}
